@@ -227,8 +227,14 @@ func (sc *scenario) def(s site) (def, bool) {
 	return def{}, false
 }
 
-var posTaskPrefix = []string{"", "a:", "a:b:"}
-var posFile = []string{"Taskfile.yml", "inc1/Taskfile.yml", "inc1/inc2/Taskfile.yml"}
+// Positions 3 and 4: like 2 (include depth 2), but the root includes the
+// middle Taskfile twice (namespaces a and z) and it is the ROOT's include
+// statement that carries the vars: each path has its own include-statement
+// value of the name ("incstmt…" on the path of the probed task, "otherpath.lit"
+// on the other one). Position 3 probes the task through a, position 4 through z.
+var posTaskPrefix = []string{"", "a:", "a:b:", "a:b:", "z:b:"}
+var posFile = []string{"Taskfile.yml", "inc1/Taskfile.yml", "inc1/inc2/Taskfile.yml", "inc1/inc2/Taskfile.yml", "inc1/inc2/Taskfile.yml"}
+var posLabel = []string{"root", "depth1", "depth2", "depth2-twice-a", "depth2-twice-z"}
 
 func (sc *scenario) varsBlock(indent string, s site) string {
 	es := sc.entries(s)
@@ -286,6 +292,27 @@ func (sc *scenario) build(bin string) {
 		root += "includes:\n  a:\n    taskfile: ./inc1/Taskfile.yml\n"
 		root += "tasks:\n  roottask:\n    cmds:\n      - 'true'\n"
 		files["inc1/Taskfile.yml"] = "version: '3'\nincludes:\n  b:\n    taskfile: ./inc2/Taskfile.yml\n" + sc.varsBlock("    ", sIncStmt) +
+			"tasks:\n  midtask:\n    cmds:\n      - 'true'\n"
+		files["inc1/inc2/Taskfile.yml"] = "version: '3'\n" + sc.varsBlock("", sIncFile) + sc.tasksBlock()
+	case 3, 4:
+		own := sc.varsBlock("    ", sIncStmt)
+		// the other path always defines the name (and the companion the winning template reads)
+		other := "    vars:\n      " + sc.Name + ": 'otherpath.lit'\n"
+		if len(sc.Defs) > 0 && sc.Defs[0].Kind == kTmpl {
+			other += "      " + companionName(sc.Name, sc.Defs[0].Site) + ": 'otherpath.lit'\n"
+		}
+		if sc.SibAt != nil {
+			other += "      " + sibName(sc.Name) + ": 'otherpath.lit'\n"
+		}
+		va, vz := own, other
+		if sc.Pos == 4 {
+			va, vz = other, own
+		}
+		root += "includes:\n  a:\n    taskfile: ./inc1/Taskfile.yml\n" + va + "  z:\n    taskfile: ./inc1/Taskfile.yml\n" + vz
+		root += "tasks:\n  roottask:\n    cmds:\n      - 'true'\n"
+		// the inner include statement is in mapping form but never defines the
+		// name: the documentation does not order the two statements of one path
+		files["inc1/Taskfile.yml"] = "version: '3'\nincludes:\n  b:\n    taskfile: ./inc2/Taskfile.yml\n    vars:\n      DECOY_INNER: 'x'\n" +
 			"tasks:\n  midtask:\n    cmds:\n      - 'true'\n"
 		files["inc1/inc2/Taskfile.yml"] = "version: '3'\n" + sc.varsBlock("", sIncFile) + sc.tasksBlock()
 	}
@@ -398,10 +425,13 @@ func generate() (list []*scenario, lattice map[string]int) {
 	// (1) the uniform-kind lattice, exhaustively
 	nameRng := h.Rng(10, 1)
 	name := varName(nameRng)
-	for pos := 0; pos < 3; pos++ {
+	for pos := 0; pos < 5; pos++ {
 		for k := kLit; k <= kRef; k++ {
 			if k == kTmpl {
 				continue // enumerated below
+			}
+			if pos >= 3 && k != kLit && !h.Thorough() {
+				continue // twice-included middle file: literal kind in the quick tier, all kinds in the thorough tier
 			}
 			subsets(pos, true, func(ss []site) {
 				var defs []def
@@ -422,7 +452,10 @@ func generate() (list []*scenario, lattice map[string]int) {
 	// (1b) template kind, exhaustively: winner site w x every subset C of the
 	// lower-priority sites as definers of the companion x companion kind
 	// {literal, sh} x {the probed name defined at w only, also (literal) at C}
-	for pos := 0; pos < 3; pos++ {
+	for pos := 0; pos < 5; pos++ {
+		if pos >= 3 && !h.Thorough() {
+			continue
+		}
 		ws := append(sitesFor(pos, false), sGlobalTF)
 		for _, w := range ws {
 			lowerSubsets(pos, w, func(cs []site) {
@@ -532,10 +565,10 @@ func generate() (list []*scenario, lattice map[string]int) {
 		}
 	}
 	// (2) mixed kinds, seeded
-	n := h.Pick(400, 20000)
+	n := h.Pick(300, 20000)
 	r := h.Rng(10, 2)
 	for i := 0; i < n; i++ {
-		pos := r.Intn(3)
+		pos := r.Intn(5)
 		var defs []def
 		for _, s := range sitesFor(pos, true) {
 			if r.Intn(100) < 60 {
@@ -605,6 +638,18 @@ func generate() (list []*scenario, lattice map[string]int) {
 			}
 		}
 	}
+	// (5) name collisions between the env lattice and the vars lattice; quick:
+	// one position per scenario (round-robin), thorough: all three
+	for i, ec := range envCollisions() {
+		for pos := 0; pos < 3; pos++ {
+			if !h.Thorough() && pos != i%3 {
+				continue
+			}
+			if add(&scenario{Family: "env", Pos: pos, Name: "PE_" + name[3:], Env: ec, Uniform: true}) {
+				lattice[fmt.Sprintf("env.collision.pos%d", pos)]++
+			}
+		}
+	}
 	return list, lattice
 }
 
@@ -632,7 +677,7 @@ func label(elem string) string {
 		}
 	}
 	switch elem {
-	case "none", "unset", "fallback", "sibling":
+	case "none", "unset", "fallback", "sibling", "otherpath":
 		return elem
 	case "procenv-empty":
 		return "procenv(empty)"
@@ -830,7 +875,7 @@ func Run(id string, start time.Time) int {
 			// inconclusive below (no probe line)
 			part.Count("silent_exit0_runs", 1)
 		}
-		nontrivial := len(sc.Defs)+len(sc.Comp) >= 2 || (sc.Family == "env" && sc.Env.count() >= 2) || (sc.Family == "special" && len(sc.Defs) == 0)
+		nontrivial := len(sc.Defs)+len(sc.Comp) >= 2 || (sc.Family == "env" && sc.Env.count()+len(sc.Env.VarSites) >= 2) || (sc.Family == "special" && len(sc.Defs) == 0)
 		part.Eval(sc.key(), nontrivial)
 		part.Count("cli_runs", 1)
 		part.Count("runs."+sc.Family, 1)
@@ -880,7 +925,7 @@ func Run(id string, start time.Time) int {
 	rep := h.Report{
 		ID: id, Level: "exploration", Start: start, MinEvents: 500, EventsKey: "probes_observed", Exhaustive: &yes,
 		Rule: "one case = one CLI run in a generated project; the probed name is defined at a subset of the definition sites, each definition carrying a value that names its site and kind, the probe prints {{.NAME}} (or $NAME for the env lattice) and the oracle compares with the value the documented order gives. A template-kind definition at site s is 's({{.L_s}})' where the companion L_s is defined (literal or sh:) at a subset of the lower-priority sites, so the value also shows which definition the template inside the winning definition saw. " +
-			"Enumerated exhaustively (exhaustive=true refers to this sub-space): template variables: every subset of {task vars, call vars, included-Taskfile vars, include-statement vars, OS env} x {no global, root Taskfile global, CLI NAME=value} x uniform kind {literal, sh, ref} x task position {root, include depth 1, depth 2} (sites that do not exist for a position dropped, duplicates removed); template kind: position x winning site w (template) x every subset C of the lower-priority sites defining the companion x companion kind {literal, sh} x {name defined at w only, also at C}; refer-back: position x {task vars, call vars} defining the name as a template over the same name ('site({{.N | default \"none\"}})' and the documented idiom '{{.N | default \"fallback\"}}') x each lower site (literal / sh) x {nothing, OS env} below it; sibling: position x tier L in {root globals, included-file vars} defining the name (literal / sh) and a sibling template over it x {no, each single, all} higher sites redefining the name, the probe reads the sibling; special variables: 10 names x position x every subset of the Taskfile/CLI sites (literal) in the thorough tier, in the quick tier every subset for 3 seed-chosen names and {} plus singletons for the other 7; env: every subset of {task env, task dotenv file 1, file 2} x process env {unset, set, set to the empty string} x {no global, global env, global dotenv} x {experiment off, on} x kind {literal, sh} x position. " +
+			"Enumerated exhaustively (exhaustive=true refers to this sub-space): template variables: every subset of {task vars, call vars, included-Taskfile vars, include-statement vars, OS env} x {no global, root Taskfile global, CLI NAME=value} x uniform kind {literal, sh, ref} x task position {root, include depth 1, depth 2} (sites that do not exist for a position dropped, duplicates removed); template kind: position x winning site w (template) x every subset C of the lower-priority sites defining the companion x companion kind {literal, sh} x {name defined at w only, also at C}; refer-back: position x {task vars, call vars} defining the name as a template over the same name ('site({{.N | default \"none\"}})' and the documented idiom '{{.N | default \"fallback\"}}') x each lower site (literal / sh) x {nothing, OS env} below it; sibling: position x tier L in {root globals, included-file vars} defining the name (literal / sh) and a sibling template over it x {no, each single, all} higher sites redefining the name, the probe reads the sibling; special variables: 10 names x position x every subset of the Taskfile/CLI sites (literal) in the thorough tier, in the quick tier every subset for 3 seed-chosen names and {} plus singletons for the other 7; env: every subset of {task env, task dotenv file 1, file 2} x process env {unset, set, set to the empty string} x {no global, global env, global dotenv} x {experiment off, on} x kind {literal, sh} x position; env/vars name collisions: the literal env lattice x a variable of the same name at {task vars}, {call vars}, {root globals}, {CLI}, {task, call, root globals} (the command's $NAME is judged by the env order only; quick: one position per scenario, thorough: all); twice-included middle file (positions depth2-twice-a/z: the root includes the middle Taskfile under two namespaces with different include-statement vars, the probed task's path must see its own): every subset x literal kind in the quick tier, all kinds and the template lattice in the thorough tier. " +
 			"Seeded: mixed-kind scenarios (each site independently present with p=0.6, kind uniform). distinct key = (family, position, name, site.kind list); non-trivial = at least two definitions are in play (of the name, or of the name and the companion its template reads: a precedence or visibility decision is made) or, for special variables, no site defines it (availability is decided).",
 		Assumptions: []string{
 			"a root Taskfile global and a CLI assignment of one name, an intermediate include's vars at depth 2, global env vs global dotenv of one name, and the OS environment vs a special variable are not ordered by the statement/documentation and are never both defined",
